@@ -42,21 +42,21 @@ type wlRef struct {
 }
 
 type refCase struct {
-	ID      string   `json:"id"`
-	Kind    string   `json:"kind"` // sched | fault
-	Init    string   `json:"init"` // name of the initial state
-	A       opJ      `json:"a"`
-	B       *opJ     `json:"b,omitempty"`
-	K       int      `json:"k"`               // A is parked before its k-th labelled call
-	FaultPC int      `json:"fault_pc"`        // fault cases: model pc of the failing call (-1 none)
-	LabelsA []string `json:"labels_a"`        // labels of A's calls before the park
-	Parked  bool     `json:"parked"`          // A reached the park
-	BBlocked bool    `json:"b_blocked"`       // B did not finish while A was parked (lock) — A was released first
-	Pre     rstJ     `json:"pre"`
-	Impl    rstJ     `json:"impl"`
-	OKA     bool     `json:"ok_a"`
-	OKB     bool     `json:"ok_b"`
-	ListOK  bool     `json:"list_ok"`
+	ID       string   `json:"id"`
+	Kind     string   `json:"kind"` // sched | fault
+	Init     string   `json:"init"` // name of the initial state
+	A        opJ      `json:"a"`
+	B        *opJ     `json:"b,omitempty"`
+	K        int      `json:"k"`         // A is parked before its k-th labelled call
+	FaultPC  int      `json:"fault_pc"`  // fault cases: model pc of the failing call (-1 none)
+	LabelsA  []string `json:"labels_a"`  // labels of A's calls before the park
+	Parked   bool     `json:"parked"`    // A reached the park
+	BBlocked bool     `json:"b_blocked"` // B did not finish while A was parked (lock) — A was released first
+	Pre      rstJ     `json:"pre"`
+	Impl     rstJ     `json:"impl"`
+	OKA      bool     `json:"ok_a"`
+	OKB      bool     `json:"ok_b"`
+	ListOK   bool     `json:"list_ok"`
 }
 
 type refRig struct {
